@@ -401,9 +401,10 @@ func (r *RejectReasonData) UnmarshalCBOR(data []byte) error {
 		return fmt.Errorf("failed to decode RejectReasonData: %w", err)
 	}
 
-	if len(arr) < 1 {
+	// The reject reason is [type] or [type, message]
+	if len(arr) < 1 || len(arr) > 2 {
 		return fmt.Errorf(
-			"RejectReasonData array must have at least 1 element (type), got %d",
+			"RejectReasonData array must have 1 or 2 elements (type, message), got %d",
 			len(arr),
 		)
 	}
